@@ -34,6 +34,9 @@ import (
 
 var replayMu sync.Mutex
 
+// replayRunDeadline bounds the time one check run spends replaying (set by cmdCheck; far future otherwise).
+var replayRunDeadline = time.Now().Add(24 * time.Hour)
+
 // ---------------------------------------------------------------- shapes and concrete values
 
 type rshape struct {
@@ -1287,9 +1290,14 @@ func (p *replayPlan) search(ob *Obligation, work string) *replayRecord {
 	full := stripCheck(ob.Script)
 	relaxed := relax(ob.Script)
 	tried := map[string]bool{}
-	for _, src := range []struct{ name, base string }{{"failing query, quantifiers instantiated over small indices", concretiseMark + full}, {"failing query with quantified assertions dropped", relaxed}, {"failing query", full}} {
+	deadline := time.Now().Add(150 * time.Second)
+	_ = full
+	for _, src := range []struct{ name, base string }{{"failing query, quantifiers instantiated over small indices", concretiseMark + full}, {"failing query with quantified assertions dropped", relaxed}} {
 		var block []string
 		for k := 0; k < 3; k++ {
+			if time.Now().After(deadline) || time.Now().After(replayRunDeadline) {
+				return nil
+			}
 			in, blk := p.candidate(src.base, block, work, fmt.Sprintf("%d", k))
 			if in == nil {
 				break
